@@ -1,1 +1,3 @@
+import Properties.C03
 import Properties.C05
+import Properties.C10
